@@ -146,12 +146,14 @@ func (e *Engine) rangeModeOf(li *LoopInfo, fn *ssa.Function, mt *types.Map) rang
 		for _, in := range b.Instrs {
 			switch x := in.(type) {
 			case *ssa.MapUpdate:
-				if xmt, ok := x.Map.Type().Underlying().(*types.Map); ok {
-					if d2, _, _ := e.mapHeapKeys(xmt); d2 == dk {
-						return rangeUnsafe
-					}
-				} else {
+				// an insertion into a map of the iterated type, written in the loop's own function, is allowed:
+				// execMapUpdate emits the obligation that its target is a different map object (rangeAliasCheck)
+				xmt, ok := x.Map.Type().Underlying().(*types.Map)
+				if !ok {
 					return rangeUnsafe
+				}
+				if d2, _, _ := e.mapHeapKeys(xmt); d2 == dk && !e.mergeOn() {
+					return rangeUnsafe // the alias obligation is part of the opt-in extensions (root flag merge_branches)
 				}
 			case *ssa.Call, *ssa.Defer, *ssa.Go:
 				var cc *ssa.CallCommon
@@ -912,4 +914,34 @@ func (e *Engine) coordRemLemma(s *State, a, b, r Term) Term {
 	s.assume(Eq(c, r))
 	s.assume(Implies(And(Ge(a, IntLit(0)), Gt(b, IntLit(0))), And(Ge(c, IntLit(0)), Lt(c, b))))
 	return c
+}
+
+// rangeAliasCheck: a map update executed inside map-range loops of the same function must not target a map that is
+// being iterated (then "the body never inserts into the iterated map" holds although the types coincide). Emitted
+// as a safety obligation per update site; a failure means the stronger range facts were not justified.
+func (e *Engine) rangeAliasCheck(s *State, fr *Frame, x *ssa.MapUpdate, m Term) {
+	mt, ok := x.Map.Type().Underlying().(*types.Map)
+	if !ok || !e.mergeOn() {
+		return
+	}
+	dk, _, _ := e.mapHeapKeys(mt)
+	for _, lc := range fr.loops {
+		for _, in := range lc.loop.Header.Instrs {
+			nx, ok := in.(*ssa.Next)
+			if !ok || nx.IsString {
+				continue
+			}
+			it, ok := fr.regs[nx.Iter].(*rangeIter)
+			if !ok || !it.isMap {
+				continue
+			}
+			if d2, _, _ := e.mapHeapKeys(it.mt); d2 != dk {
+				continue
+			}
+			name := fmt.Sprintf("%s#safety:rangealias.%s", shortKey(funcKey(fr.fn)), e.siteName(x, "mapupdate"))
+			g := Not(Eq(m, it.m))
+			s.addObligation("safety", name, "", x.Pos(), g, "a map updated inside a range loop over a map of the same type is not the map being iterated")
+			s.assume(g)
+		}
+	}
 }
